@@ -118,6 +118,10 @@ pub struct WorldC {
     state_models: BTreeMap<(NodeId, u32), Model>,
     /// pooled points for cross-tag sweeps
     pub pool: Vec<pp::Point>,
+    /// one I/O buffer reused by every client of the process for the input bytes, as an
+    /// application reading inputs into a fixed buffer would: consecutive calls see the same
+    /// address and (for equal-length inputs) the same length with different content
+    io_buf: Vec<u8>,
 }
 
 fn point_bytes(p: &pp::Point) -> [u8; 32] {
@@ -133,7 +137,7 @@ impl WorldC {
     }
 
     pub fn build(ctx: &mut Ctx, cfg: CCfg, netcfg: NetCfg) -> Result<WorldC, Violation> {
-        let mut w = WorldC { sim: Sim::new(30_000), net: Net::new(netcfg), cfg: cfg.clone(), servers: Vec::new(), clients: Vec::new(), next_key_id: 1, state_models: BTreeMap::new(), pool: Vec::new() };
+        let mut w = WorldC { sim: Sim::new(30_000), net: Net::new(netcfg), cfg: cfg.clone(), servers: Vec::new(), clients: Vec::new(), next_key_id: 1, state_models: BTreeMap::new(), pool: Vec::new(), io_buf: vec![0u8; 1024] };
         for s in 0..cfg.n_servers {
             let node = SERVER0 + s as NodeId;
             if s == 0 || !cfg.replicate {
@@ -341,7 +345,13 @@ impl WorldC {
                     };
                     let s = ctx.ch.index(self.servers.len());
                     let node = self.clients[c].node;
-                    let (p, r) = ctx.os.with_node(node as u64, || pp::Client::blind(&input));
+                    let n = input.len().min(self.io_buf.len());
+                    self.io_buf[..n].copy_from_slice(&input[..n]);
+                    let (p, r) = {
+                        let buf = &self.io_buf[..n];
+                        ctx.os.with_node(node as u64, || pp::Client::blind(buf))
+                    };
+                    ctx.stats.probe("blind_calls_on_reused_buffer");
                     oracle.on_request(ctx, self, c, &input, md, &p)?;
                     let rid = self.clients[c].next_req;
                     self.clients[c].next_req += 1;
